@@ -11,7 +11,7 @@ THEOREMS = ["Helios.LB.passive_below_threshold", "Helios.LB.passive_at_threshold
             "Helios.LB.probe_fail_ejects", "Helios.LB.probe_ok_never_ejects", "Helios.LB.no_traffic_in_window",
             "Helios.LB.recovers_after_window", "Helios.LB.lazy_expiry", "Helios.LB.eject_mirror",
             "Helios.LB.isHealthyAt_mirror", "Helios.LB.probeEnd_ok_keeps_window",
-            "Helios.LB.mi_step", "Helios.LB.mirror_ok_run"]
+            "Helios.LB.mi_step", "Helios.LB.mirror_ok_run", "Helios.LB.eject_survives_expiry_check"]
 SEC = lbgen.SEC
 
 
@@ -56,6 +56,9 @@ def gen_episode(rng, long=False):
     for _ in range(3 * max(1, len(g.names)) * 7):
         g.request(outcome="200", xff="-", xri="-", remote="10.0.%d.%d:1" % (rng.randint(0, 255), rng.randint(0, 255)))
     g.observe()
+    if rng.random() < 0.25:
+        # last op: the lazy expiry check racing a fresh ejection (real goroutines, spin gate)
+        g.ops.append("lb ejectrace %d %d" % (g.t, 3000 if long else 400))
     return g.ops
 
 
@@ -79,11 +82,20 @@ def oracle(ep, outs):
             fails.append("%s -> %s" % (line, o))
             break
         w = line.split()
+        if w[1] == "ejectrace":
+            if o not in ("consistent", "n/a"):
+                fails.append("%s (%s)" % (o, line))
+            continue
         before = {x.name: (x.healthy, x.until) for x in sh.pool}
         info = sh.apply(line, o)
         if w[1] == "begin":
             if info.get("served_in_window"):
                 fails.append("%s served inside its unhealthy window (%s)" % (info["served"], line))
+            if info.get("status") == 503 and not sh.cb and not sh.rl:
+                outside = [n for n in info["pool"] if n not in info["window"]]
+                if outside:
+                    fails.append("503 while %s is outside its unhealthy window: an ejection outlasts the configured %d s (%s)" % (
+                        outside, sh.eject_ns // 10**9, line))
             if recovery:
                 if info.get("served"):
                     served_in_recovery.add(info["served"])
